@@ -11,8 +11,9 @@ Streams
                   extended domain (oracle only): numpy index arrays
   subtd_read/write  Td.subInit/subGet/subNames/subSet vs td._get_sub_tensordict(idx) (c03_sub.py)
   ext-tensorclass / ext-lazy  other containers, property oracle only (c03_containers.py)
+  at-api          td.get_at / set_at_ / update_at_ (index on the entry itself) vs TorchSpec + torch (c03_at.py)
   history         two-step histories r = td[i1]; r[i2] = v / td[i1][i2], property oracle only (c03_hist.py)
-  pins            ast fingerprints of the 13 hand-transcribed functions (c03_pins.py)
+  pins            ast fingerprints of the 18 hand-transcribed functions (c03_pins.py)
   corpus/witness  minimised past failures and the fixed witnesses of the known defects, replayed on every run
 """
 from __future__ import annotations
@@ -63,6 +64,8 @@ def main():
     import c03_sub
     c03_sub.subtd(run, drv)
     c03_sub.subsub_model(run, drv)
+    import c03_at
+    c03_at.at_api(run, drv)
     import c03_containers
     c03_containers.containers(run, drv)
     import c03_hist
